@@ -87,12 +87,14 @@ def load_known(prop):
                 res.append(dict(obligation=m.group(2), define=m.group(3), what=m.group(4)))
     return res
 
+WORK_SUFFIX = ''   # set in main(): separate work directories per tier / partial run, so that two runs of one property do not collide
+
 class Query:
     def __init__(self, prop, ob, params, excludes=()):
         self.prop = prop; self.ob = ob; self.params = dict(params); self.excludes = tuple(excludes)
         tag = '_'.join('%s%s' % (k.replace('VF_', ''), v) for k, v in sorted(self.params.items()))
         self.qid = ob['name'] + ('-' + tag if tag else '') + ('-excl' if excludes else '')
-        self.wd = os.path.join(WORK, prop, re.sub(r'[^-A-Za-z0-9_.]', '_', self.qid))
+        self.wd = os.path.join(WORK, prop + WORK_SUFFIX, re.sub(r'[^-A-Za-z0-9_.]', '_', self.qid))
 
 # ------------------------------------------------------------------ build
 def repo_path(p):
@@ -107,7 +109,7 @@ def build_c(q):
     flags = ['-I' + os.path.join(VERIF, 'harness', d) for d in ob.get('shim_includes', [])] + BASE_FLAGS + list(ob.get('cxxflags', [])) + defs
     must([CLANGXX] + flags + ['-S', '-emit-llvm', harness, '-o', 'h.ll'], 'clang++ harness', cwd=wd)
     lls = ['h.ll']
-    tudir = os.path.join(WORK, q.prop, '_tu'); os.makedirs(tudir, exist_ok=True)
+    tudir = os.path.join(WORK, q.prop + WORK_SUFFIX, '_tu'); os.makedirs(tudir, exist_ok=True)
     for tu in [os.path.join(ENGINE, 'support', 'libstdcxx_inst.cpp')] + list(ob.get('tus', [])):
         src = repo_path(tu)
         key = hashlib.sha256((src + ' '.join(BASE_FLAGS + list(ob.get('cxxflags', []))) + sha(src)).encode()).hexdigest()[:16]
@@ -230,9 +232,9 @@ def run_cbmc(q, extra=()):
     if ob.get('sat_solver'): cmd += ['--sat-solver', ob['sat_solver']]
     tier_to = ob.get('timeout', 600)
     if os.environ.get('VF_TIMEOUT_CAP'): tier_to = min(tier_to, int(os.environ['VF_TIMEOUT_CAP']))
+    open(os.path.join(q.wd, 'cbmc.cmd'), 'w').write(' '.join(cmd) + '\n')
     with open(os.path.join(q.wd, 'cbmc.json'), 'wb') as fo:
         r = run(cmd, cwd=q.wd, timeout=tier_to, mem_gb=ob.get('mem_gb', 16), stdout=fo)
-    open(os.path.join(q.wd, 'cbmc.cmd'), 'w').write(' '.join(cmd) + '\n')
     if r['timeout']:
         return dict(verdict='timeout', wall=r['wall'], cmd=cmd)
     text = open(os.path.join(q.wd, 'cbmc.json'), 'rb').read().decode('latin1')
@@ -399,6 +401,8 @@ def do_query(q, tier, seed, validate=True):
         results = c['results']
         rec['properties_checked'] = len(results)
         fails = [r for r in results if r.get('status') not in ('SUCCESS',) and not (r.get('description') or '').startswith('VF-KEEP')]
+        if any(r.get('status') == 'ERROR' for r in results):
+            rec['reason'] = 'solver error (out of memory or internal error): no verdict'; return rec
         wit = [r for r in results if classify(r, q.ob) == 'witness']
         wvals = None
         if not wit:
@@ -493,13 +497,15 @@ def main():
     prop = a.prop
     spec = load_spec(prop)
     seed = int(os.environ.get('VERIF_SEED', '0') or 0)
+    global WORK_SUFFIX
+    WORK_SUFFIX = ('.thorough' if a.tier == 'thorough' else '') + ('.only' if a.only else '')
     if a.replay:
         return do_replay(prop, spec, a.replay)
     t0 = time.time()
     known = load_known(prop)
     qs = expand(prop, spec, a.tier, a.only)
     if not qs: sys.exit('no queries selected')
-    shutil.rmtree(os.path.join(WORK, prop), ignore_errors=True)
+    shutil.rmtree(os.path.join(WORK, prop + WORK_SUFFIX), ignore_errors=True)
     if not a.only: shutil.rmtree(os.path.join(VERIF, 'replays', prop), ignore_errors=True)
     recs = []
     def worker(q): return q, do_query(q, a.tier, seed, validate=not a.no_validate)
